@@ -3,6 +3,19 @@
 // Contracts for package decoders, checked by /verif/govc. Comment-only: no code.
 package decoders
 
+// Interface-level contract of a decoder: scan_ok counts the entries handed out; an entry comes without an error.
+//@ event scan_ok
+//@ iface Decoder.Scan
+//@ ensures ev(scan_ok) == old(ev(scan_ok)) + ite(result1 == nil, 1, 0)
+//@ ensures imp(result1 == nil, result0 != nil)
+//@ modifies ev(scan_ok)
+
+//@ iface Decoder.LoadAmmo
+//@ ensures forall(k, 0, len(result0), result0[k] != nil)
+
+//@ iface DecodedAmmo.Tag
+//@ pure
+
 //@ func (d *jsonlineDecoder) scanAmmos
 //@ props C08 C07
 //@ ghost n = len(d.ammos)
